@@ -404,7 +404,7 @@ fn run_engine(c: &Case, op: &[String]) -> Vec<String> {
         });
     }
     for _ in 0..nconf {
-        match rx.recv_timeout(Duration::from_secs(30)) {
+        match rx.recv_timeout(Duration::from_secs(30 * nvh::load_factor() as u64)) {
             Ok(true) => {}
             Ok(false) => return vec!["engine panic".into()],
             Err(_) => return vec!["engine timeout".into()],
